@@ -1,9 +1,11 @@
 (* C11 - SampleRatio p-values are the exact binomial / normal tests of the expected split.
    Statements about the model REGENERATED from metrics/proportion.py (genR/Proportion.v).  scipy.stats.binomtest is an
-   oracle `binom n k p`; that its value is the two-sided exact binomial p-value, and its swap symmetry, are validated
-   numerically by tools/props/C11.py against an exact rational computation (named partial: C11_binom_partial). *)
+   oracle `binom n k p`.  proofs/C11_binom.v defines the two-sided exact binomial p-value (sum of the probabilities of all
+   outcomes no more likely than the observed one) and proves its swap symmetry and range; that scipy's function IS that
+   value (up to its relative tie tolerance) is validated numerically by tools/props/C11.py against an exact rational
+   computation (named partial: C11_binom_partial). *)
 From Coq Require Import Reals Bool Lra.
-From TT Require Import lib.PreludeR lib.Distr lib.DistrWitness genR.Proportion proofs.C11_sample_ratio.
+From TT Require Import lib.PreludeR lib.Distr lib.DistrWitness genR.Proportion proofs.C11_sample_ratio proofs.C11_binom.
 Local Open Scope R_scope.
 
 Theorem C11_counts_reported fam binom cfg cc ct r :
@@ -39,6 +41,21 @@ Proof. exact (sr_norm_swap fam cfg k n p). Qed.
 Theorem C11_norm_pvalue_range fam cfg k n p : fam_laws fam -> 0 < sr_norm_pvalue fam cfg k n p <= 1.
 Proof. intros HF. exact (sr_norm_range fam HF cfg k n p). Qed.
 
+(* exact path: the exact two-sided binomial test is symmetric under k -> n - k, p -> 1 - p, and is a probability *)
+Theorem C11_exact_binomial_test_swap n k p : (k <= n)%nat -> binom_two_sided n (n - k) (1 - p) = binom_two_sided n k p.
+Proof. exact (binom_two_sided_swap n k p). Qed.
+Theorem C11_exact_binomial_test_range n k p : 0 <= p <= 1 -> (k <= n)%nat -> pmf n p k <= binom_two_sided n k p <= 1.
+Proof. exact (binom_two_sided_range n k p). Qed.
+(* hence, for any `binom` with that symmetry, swapping the roles of the variants while inverting the ratio leaves the
+   exact-path p-value of SampleRatio unchanged *)
+Theorem C11_binom_swap_invariant fam binom cfg cc ct r :
+  (forall n k p, binom n (n - k) (1 - p) = binom n k p) -> r <> 0 -> 1 + r <> 0 -> sr_use_binom cfg (ct + cc) = true ->
+  sr_pvalue (sr_analyze fam binom cfg ct cc (1 / r)) = sr_pvalue (sr_analyze fam binom cfg cc ct r).
+Proof.
+  intros Hsym Hr H1 Hb. rewrite !C11_pvalue_source. replace (cc + ct) with (ct + cc) by ring. rewrite Hb.
+  rewrite (sr_share_swap r Hr H1). replace cc with ((ct + cc) - ct) at 2 by ring. apply Hsym.
+Qed.
+
 Example C11_nonvacuous : fam_laws logistic_family /\ sr_use_binom (mk_sr_cfg MAuto true) 999 = true
   /\ sr_use_binom (mk_sr_cfg MAuto true) 1000 = false.
 Proof.
@@ -55,3 +72,6 @@ Print Assumptions C11_norm_path_closed_form.
 Print Assumptions C11_continuity_correction.
 Print Assumptions C11_norm_swap_invariant.
 Print Assumptions C11_norm_pvalue_range.
+Print Assumptions C11_exact_binomial_test_swap.
+Print Assumptions C11_exact_binomial_test_range.
+Print Assumptions C11_binom_swap_invariant.
